@@ -135,3 +135,21 @@ pub(crate) fn len_only_bytes(n: usize) -> Bytes {
     unsafe { v.set_len(n) };
     Bytes::from_static(v.leak())
 }
+
+/// A request HEADERS frame with an empty field section and only `:method` set (the message conversion is
+/// stubbed in the harnesses that use it, so the missing pseudo fields are irrelevant there).
+pub(crate) fn mk_request_headers(id: StreamId, eos: bool, with_protocol: bool) -> crate::frame::Headers {
+    let pseudo = crate::frame::Pseudo {
+        method: Some(http::Method::GET),
+        scheme: None,
+        authority: None,
+        path: None,
+        protocol: if with_protocol { Some(crate::ext::Protocol::from_static("websocket")) } else { None },
+        status: None,
+    };
+    let mut f = crate::frame::Headers::new(id, pseudo, http::HeaderMap::new());
+    if eos {
+        f.set_end_stream();
+    }
+    f
+}
